@@ -94,7 +94,7 @@ def decide_kani_units(units, tier, workdir, prop):
             cmd += (["-j", str(min(8, len(hs))), "--output-format", "terse"] if len(hs) > 1 else [])
             timeout = sum(h.get("timeout", 300) for h in hs) + 240
             try:
-                p = subprocess.run(cmd, cwd=scratch, capture_output=True, text=True, timeout=timeout, env=env)
+                p = R.run_group(cmd, cwd=scratch, timeout=timeout, env=env)
                 out, err = p.stdout, p.stderr
             except subprocess.TimeoutExpired:
                 raise R.Infra(f"{u['name']}: cargo kani time-out after {timeout}s (undecided, not a violation)")
@@ -152,7 +152,7 @@ def playback(scratch, u, harness, env, workdir):
     """ask Kani for the concrete values of the counterexample (printed as a unit test)"""
     cmd = ["cargo", "kani", "-Z", "function-contracts", "-Z", "stubbing", "-Z", "concrete-playback", "--concrete-playback=print", "--harness", harness] + u.get("kani_args", [])
     try:
-        p = subprocess.run(cmd, cwd=scratch, capture_output=True, text=True, timeout=600, env=env)
+        p = R.run_group(cmd, cwd=scratch, timeout=600, env=env)
     except subprocess.TimeoutExpired:
         return None
     m = re.search(r"```\n(.*?)```", p.stdout, re.S)
